@@ -143,9 +143,11 @@ replaced by `g`), and all object numbers — read after loading, `g p.object_id`
 def blockOkB (g : α → α) (m b : Motl α) : Bool :=
   forall2B (fun p q => sameB eqv g isIdField p q && q.object_id == g p.object_id + offsetOf g m b) m b
 
-/-- the two id fields of a row as they are after loading (`g` = `fill` for a bare DataFrame, identity for a `Motl`) -/
-def loadIds (g : α → α) (p : Particle α) : Particle α :=
-  (p.set .object_id (g p.object_id)).set .subtomo_id (g p.subtomo_id)
+/-- the key fields the clauses of a merge READ — the two id fields and the decision value `score` — as they
+are after loading (`g` = `fill` for a bare DataFrame, identity for a `Motl`); every other cell stays raw,
+so that "other fields unchanged" is still judged against the caller's own rows -/
+def loadKeys (g : α → α) (p : Particle α) : Particle α :=
+  ((p.set .object_id (g p.object_id)).set .subtomo_id (g p.subtomo_id)).set .score (g p.score)
 
 def disjointObjB (b c : Motl α) : Bool := b.all (fun p => c.all (fun q => !(p.object_id == q.object_id)))
 
@@ -168,9 +170,9 @@ def mergeRenumberClauses (fill : α → α) (nat : Nat → α) (ins : List (Bool
 def checkMergeRenumber (fill : α → α) (nat : Nat → α) (ins : List (Bool × Motl α)) (out : Motl α) : Bool :=
   (mergeRenumberClauses eqv fill nat ins out).all (·.2)
 
-/-- the inputs, ids read after loading, shifted by a certificate `cs`, each still tagged -/
+/-- the inputs, ids and decision value read after loading, shifted by a certificate `cs`, each still tagged -/
 def shiftedInputs (fill : α → α) (cs : List α) (ins : List (Bool × Motl α)) : List (Bool × Motl α) :=
-  List.zipWith (fun c x => (x.1, shiftObj c (x.2.map (loadIds (fillIf fill x.1))))) cs ins
+  List.zipWith (fun c x => (x.1, shiftObj c (x.2.map (loadKeys (fillIf fill x.1))))) cs ins
 
 /-- merge and drop duplicates; `cs` is a certificate (one object-number offset per input): the
 merged table before the dropping is the inputs shifted by these offsets; a surviving row is a row of
@@ -247,4 +249,25 @@ def lastOut : List (Op α × Obs α) → Motl α → Motl α
 
 end arith
 end checks
+
+/-! ### the model's own observation chain (what the checkers are handed when the MODEL is the implementation):
+`Props/C08.lean` `check_run_accepts_model` proves `checkRun` accepts it for every history -/
+section modelchain
+variable [BEq α] [LT α] [DecidableLT α] [Add α] [Sub α] [OfNat α 0] [OfNat α 1]
+
+/-- what the model shows after one operation: its table, for a split all its parts, for
+`merge_and_drop_duplicates` the offsets its own loop used as the certificate -/
+def modelObs (fill : α → α) (nat : Nat → α) : Op α → Motl α → Obs α
+  | .splitPick f i, l => { out := step fill nat (.splitPick f i) l, parts := split f l }
+  | .mergeDropDup b a s, l =>
+    { out := step fill nat (.mergeDropDup b a s) l,
+      hints := [mergeOffsets Gen.C08.mergeDropDupShiftCmp 0 (mergeInputs fill b a s l)] }
+  | op, l => { out := step fill nat op l }
+
+/-- the model's run as an observed history -/
+def modelChain (fill : α → α) (nat : Nat → α) : List (Op α) → Motl α → List (Op α × Obs α)
+  | [], _ => []
+  | op :: ops, l => (op, modelObs fill nat op l) :: modelChain fill nat ops (step fill nat op l)
+
+end modelchain
 end CryoCat.C08
